@@ -18,6 +18,8 @@ inline uint64_t fnv1a(const void* p, size_t n, uint64_t h = 1469598103934665603u
     return h;
 }
 inline uint64_t fnv1a(const std::string& s, uint64_t h = 1469598103934665603ull) { return fnv1a(s.data(), s.size(), h); }
+// (const char*, seed): without this overload such a call would select (const void*, size_t n = seed)
+inline uint64_t fnv1a(const char* s, uint64_t h) { return fnv1a((const void*)s, __builtin_strlen(s), h); }
 
 struct Rng {
     uint64_t s[4];
